@@ -46,12 +46,13 @@ def run(tier):
         cov["structures"] = sorted({c["recipe"]["file"] for c in cases})
         cov["exhaustive"] = False
         cov["rule"] = ("corpus structures from tests/ (%d files), each as read, rigidly moved, jittered (sigma 0.02/0.1/0.3 A), "
-                       "thinned of residues / atoms, squashed, and as a two-model structure; plus threshold probes (two residues of a corpus structure, one moved rigidly so "
-                       "that one decision quantity sits at its threshold +- delta); every donor-acceptor atom pair "
-                       "of different residues within 4.5 A whose atoms lie on an edge is measured. A case (structure "
-                       "variant) is non-trivial when the code reports >= 1 base pair AND the spec finds >= 1 residue pair "
-                       "with a demanded (>= 2 certain base-to-base contacts) edge combination; distinct = distinct recipe "
-                       "ids." % len(cov["structures"]))
+                       "thinned of residues / atoms, squashed, residue order shuffled, and as a two-model structure; plus "
+                       "threshold probes (two residues of a corpus structure, one moved rigidly so that one decision "
+                       "quantity - a contact distance, a contact/normal angle, the cis/trans torsion - sits at its "
+                       "threshold +- delta). Every donor-acceptor atom pair of different residues within 4.5 A whose atoms "
+                       "lie on an edge is measured. A case (structure variant) is non-trivial when the code reports >= 1 "
+                       "base pair AND the spec finds >= 1 residue pair with a demanded (>= 2 certain base-to-base "
+                       "contacts) edge combination; distinct = distinct recipe ids." % len(cov["structures"]))
         cov["distinct_nontrivial"] = len({c["id"] for c in cases if c["pairs"] and info.get(c["id"], [0, 0, 0])[1] > 0})
         big = [c for c in cases if c["pairs"]]
         if big:
